@@ -1,4 +1,22 @@
-"""C04 -- data vector and curvature matrix equal the normal equations in both formalisms (kernels)."""
+"""C04 -- data vector and curvature matrix equal the normal equations in both formalisms (kernels).
+
+Spec vocabulary (all `c04_*`, every postcondition is written from the property statement, not from the code):
+  c04_mapc / c04_map   M[i,p]     entry of the mapping matrix encoded by the unique tables (partial sums over the row list)
+  c04_wgt              (d/sigma^2)[y,x], zero where the native noise map has no value (masked pixels)
+  c04_ov / c04_w       W[p,q] = sum_k K[k] K[k + p - q] / sigma^2[p + k - half], half-width PER AXIS (hy = Ky//2, hx = Kx//2)
+  c04_wh               stored value W'[p,q] (diagonal halved)
+  c04_nz / c04_part    rank of q among the partners of p with W'[p,q] != 0, and its inverse (the c-th such partner)
+  c04_off / c04_offr   row offsets in the concatenated preload (int lengths / integer-valued float lengths), c04_psum = np.sum
+  c04_G                G = M^T U M for the sparse upper-triangular matrix U of the preload; F = G + G^T
+
+Proof-engineering rules learnt here (see the report):
+  * relations between a loop counter and a program variable are stated as two inequalities where the engine's later phases may
+    still solve equations for the counter (`k + 1` triggers stop matching);
+  * no sum of two non-numeral terms inside a trigger (`a[off(p) + c]`): AC-normalisation orders pattern and term differently;
+  * non-linear definitions (quotients, 3-factor products) sit behind spec functions whose defining axiom is triggered narrowly;
+  * recurrences used with `for q in range(lo, hi)` (q = lo + k) carry a second trigger made of terms present at the use site;
+  * arrays that are written in a loop never occur under sumto / spec functions; they are characterised pointwise.
+"""
 import numpy as np
 from pyvc.contract import contract, macro, spec_fn, corollary, CONTRACTS
 from pyvc import gens
@@ -742,10 +760,17 @@ contract(
     loops={
         0: {"inv": ["forall(0, P, lambda p: forall(0, Lf, lambda l: off_diag[p, l] == " + _OD2.format(n="data_0") + "))"]},
         1: {"inv": ["forall(0, P, lambda p: forall(0, Lf, lambda l: off_diag[p, l] == " + _OD2.format(n="data_0")
-                    + " + c04_mapc(" + _U3 + ", data_0, p, pix_0_index) * " + _BTC("image_frame_1d_lengths[data_0]", "data_0", "l") + "))"]},
-        2: {"inv": ["forall(0, P, lambda p: forall(0, Lf, lambda l: off_diag[p, l] == " + _OD2.format(n="data_0")
+                    + " + c04_mapc(" + _U3 + ", data_0, p, pix_0_index) * " + _BTC("image_frame_1d_lengths[data_0]", "data_0", "l") + "))"],
+            "assert_at": {3: ["forall(0, P, lambda p: c04_mapc(" + _U3 + ", data_0, p, pix_0_index + 1) == c04_mapc(" + _U3 + ", data_0, p, pix_0_index)"
+                              " + (data_weights[data_0, pix_0_index] if data_to_pix_unique[data_0, pix_0_index] == p else 0))"]}},
+        # the slice statement touches row pix_0 only: two implications instead of a product with an indicator
+        2: {"inv": ["forall(0, P, lambda p: forall(0, Lf, lambda l: implies(p != pix_0, off_diag[p, l] == " + _OD2.format(n="data_0")
+                    + " + c04_mapc(" + _U3 + ", data_0, p, pix_0_index) * " + _BTC("image_frame_1d_lengths[data_0]", "data_0", "l") + ")))",
+                    "forall(0, P, lambda p: forall(0, Lf, lambda l: implies(p == pix_0, off_diag[p, l] == " + _OD2.format(n="data_0")
                     + " + c04_mapc(" + _U3 + ", data_0, p, pix_0_index) * " + _BTC("image_frame_1d_lengths[data_0]", "data_0", "l")
-                    + " + (data_weights[data_0, pix_0_index] if data_to_pix_unique[data_0, pix_0_index] == p else 0) * " + _BTC("psf_index", "data_0", "l") + "))"]},
+                    + " + data_0_weight * " + _BTC("psf_index", "data_0", "l") + ")))"],
+            "assert_at": {2: ["forall(0, Lf, lambda l: " + _BTC("psf_index + 1", "data_0", "l") + " == " + _BTC("psf_index", "data_0", "l")
+                              + " + image_frame_1d_kernels[data_0, psf_index] * curvature_weights[image_frame_1d_indexes[data_0, psf_index], l])"]}},
     },
     sentence={"sumto": "the mapper x linear-function block is M^T B^T cw: sum_d M[d,p] * sum over the pixels t that d blurs into of K[d->t] * cw[t, l]"},
 )
